@@ -118,6 +118,7 @@ PROPS = {
                     dict(name="ConcPinCtxMaps", module="Conc.tla", cfg="ConcPinCtxMaps.cfg", expect_violation="NoRace"),
                     dict(name="ConcPinPool", module="Conc.tla", cfg="ConcPinPool.cfg", expect_violation="NoRace"),
                     dict(name="ConcPinAppend", module="Conc.tla", cfg="ConcPinAppend.cfg", expect_violation="NoRace"),
+                    dict(name="ConcPinNameMap", module="Conc.tla", cfg="ConcPinNameMap.cfg", expect_violation="NoRace"),
                     dict(name="ConcEmit", module="Conc.tla", cfg="ConcEmit.cfg", emit=True, id_base=1000000, tier_only="quick"),
                     dict(name="ConcEmitAll", module="Conc.tla", cfg="ConcEmitAll.cfg", emit=True, id_base=1000000, tier="thorough")],
                 level="exploration", nontrivial=nt_c11, race=True,
@@ -133,13 +134,21 @@ PROPS = {
                 technique="TLC trace validation of results computed concurrently + Go race detector on model-chosen operation multisets and sharing shapes",
                 rule="random operation multisets x sharing shapes x repetitions; non-trivial = an event of a batch in which >=2 goroutines were inside an operation simultaneously; distinct by (operation, arguments, result digest)"),
     "C19": dict(level="model_checking", nontrivial=nt_c19,
-                text="Frames with >=1 row however derived are written by the real ToSQL through database/sql into a recording, storing in-memory driver (harness/sqldrv.go) under every dialect "
+                mc=[dict(name="SqlColMC", module="SqlColMC.tla", cfg="SqlColMC.cfg", timeout=900),
+                    dict(name="SqlColPinNoBackfill", module="SqlColMC.tla", cfg="SqlColPinNoBackfill.cfg", expect_violation="Refines"),
+                    dict(name="SqlColPinShort", module="SqlColMC.tla", cfg="SqlColPinShort.cfg", expect_violation="Refines"),
+                    dict(name="SqlColEmit", module="SqlColMC.tla", cfg="SqlColEmit.cfg", emit=True, id_base=1000000),
+                    dict(name="SqlColDeep", module="SqlColMC.tla", cfg="SqlColDeep.cfg", tier="thorough", timeout=1800)],
+                text="SqlColMC.tla models the scanner state of ReadSQL's columns (type inferred from the first non-NULL value, NULLs counted before and back-filled by the float and string paths, "
+                     "four data slices of which the inferred one is handed to New), one action per Scan, for every history of up to 6 (8 thorough) values over NULL, int, float, bool, text and bytes, and checks that it "
+                     "refines the property's reading of a column wherever that speaks; a missing or short back-fill must fail; every specified history of up to 4 values is read by the real ReadSQL next to a row-number column. "
+                     "Frames with >=1 row however derived are written by the real ToSQL through database/sql into a recording, storing in-memory driver (harness/sqldrv.go) under every dialect "
                      "configuration (escape character incl. multi-byte, ? or $n placeholders, table names with spaces/quotes) and read back by the real ReadSQL; result sets with NULLs leading, in "
                      "the middle and trailing in text and float columns, byte-slice values, coercions, mixed-type and entirely-NULL columns are read directly. TLC requires: exactly one Exec per row in "
                      "frame order whose statement text equals InsertText (spec/Sql.tla) byte for byte and whose arguments are that row's cells (null strings as NULL); the frame read = ReadSqlSem of the "
                      "result set; the Prepare text = the configured query; a stored-and-read-back frame = the original with enum columns as strings.",
                 note=TV_NOTE + " Float precision rounding and columns holding values of several SQL types are Unspecified. database/sql's own argument conversion is part of the path under test.",
-                technique="TLA+ specification (Sql.tla) + TLC trace validation against a recording in-memory database/sql driver",
+                technique="TLA+ scanner-state model (SqlColMC.tla, TLC exhaustive, histories replayed) + specification (Sql.tla) + TLC trace validation against a recording in-memory database/sql driver",
                 rule="random frames x dialects (round trip) and random result sets; non-trivial = a ToSQL/ReadSQL event with >=2 driver calls; distinct by (arguments, calls, result digest)"),
     "C15": dict(level="fault_enumeration", nontrivial=nt_c15,
                 mc=[dict(name="CsvScanFault", module="CsvScan.tla", cfg="CsvScanFault.cfg", timeout=900),
@@ -229,13 +238,21 @@ PROPS = {
                 note=TV_NOTE, technique="TLA+ specification (Ops.tla EnumCol, Clause.tla EnumLeaf, Rel.tla) + TLC trace validation of harness executions",
                 rule="enum frames at boundary cardinalities x operations; non-trivial = an event on a frame with an enum column, or a rejected construction; distinct by (operation, arguments, result digest)"),
     "C18": dict(level="model_checking", nontrivial=nt_c18,
-                text="like / ilike filters over valid UTF-8 cells (ASCII, multi-byte, code points whose upper case has another byte length such as U+0131, U+017F, U+0250, the C1 control U+0080, "
+                mc=[dict(name="LikeMC", module="LikeMC.tla", cfg="LikeMC.cfg", timeout=900),
+                    dict(name="LikePinTrim", module="LikeMC.tla", cfg="LikePinTrim.cfg", expect_violation="Refines"),
+                    dict(name="LikePinAnchor", module="LikeMC.tla", cfg="LikePinAnchor.cfg", expect_violation="Refines"),
+                    dict(name="LikeEmit", module="LikeMC.tla", cfg="LikeEmit.cfg", emit=True, id_base=1000000),
+                    dict(name="LikeDeep", module="LikeMC.tla", cfg="LikeDeep.cfg", tier="thorough", timeout=1800)],
+                text="LikeMC.tla transcribes NewMatcher's selection (regular expression / contains / suffix / prefix / exact, upper-casing for ilike, one % trimmed at each end) and checks it against the property's wording "
+                     "(a body occurring at a position constrained by the % at either end; '.' as the only metacharacter of a toy alphabet) for every pattern and cell of up to 3 (4 thorough) characters; greedy trimming and forgotten anchors must fail; "
+                     "every pattern is run on the real library on a string and an enum column holding every cell of up to two characters and a null. "
+                     "like / ilike filters over valid UTF-8 cells (ASCII, multi-byte, code points whose upper case has another byte length such as U+0131, U+017F, U+0250, the C1 control U+0080, "
                      "cell lengths around the matcher's 10-byte buffer and its doublings, many cells per call) and patterns of every class (no %, leading, trailing, both, only %, empty, "
                      "regular-expression metacharacters, invalid regex), on a string column and on an enum column holding the same values, are executed on the real library; TLC decides the kept rows with "
                      "LikeTruth (spec/Clause.tla): matcher selection and literal prefix/suffix/infix/equality on byte sequences, upper-casing through a logged table of strings.ToUpper, "
                      "regular expressions through the logged verdicts of Go's regexp for every candidate anchoring, of which the specification selects the prescribed one.",
                 note=TV_NOTE + " strings.ToUpper and regexp (standard library) are the references named by the property; only which text is matched against which regular expression is decided by the specification.",
-                technique="TLA+ specification (Clause.tla LikeTruth) + TLC trace validation of harness executions",
+                technique="TLA+ matcher-selection model (LikeMC.tla, TLC exhaustive, scenarios replayed) + specification (Clause.tla LikeTruth) + TLC trace validation of harness executions",
                 rule="random UTF-8 cells x patterns derived from cells; non-trivial = a like/ilike filter event; distinct by (pattern, column, result digest)"),
     "C10": dict(level="model_checking", nontrivial=nt_c10,
                 mc=[dict(name="ErrMonad", module="ErrMonad.tla", cfg="ErrMonadMC.cfg", timeout=900),
